@@ -11,7 +11,7 @@
    table_complete  every symbol field is visited, every child field is forwarded (or excluded) *)
 From Coq Require Import List Bool NArith.
 From Storage Require Import Base.Bytes Ast.AstTable Ast.Visitor Ast.VisitorProofs Ast.VisitorGen Ast.VisitorInst Gen.GenAstTable
-  Ast.PublicCfg Ast.PublicCfgProofs.
+  Ast.PublicCfg Ast.PublicCfgProofs Ast.ValidateSeq Ast.ValidateSeqProofs.
 Import ListNotations.
 
 (* ---- generic in the table ---- *)
@@ -173,3 +173,25 @@ Theorem c20_accepted_everywhere_public : forall pub maps t, gen_shaped t ->
   forall s, subtree s t -> forall x, In x (root_syms gen_table s) -> is_public pub maps x = true.
 Proof. exact c20_accepted_everywhere_public_lemma. Qed.
 Print Assumptions c20_accepted_everywhere_public.
+
+(* ---- histories: the verdict of a call does not depend on the calls made before (Ast/ValidateSeq.v) ---- *)
+
+(* in any history the verdict of a step is the verdict of that step validated alone *)
+Theorem c20_history_independent : forall h1 h2 s,
+  nth_error (gen_validate_seq (h1 ++ s :: h2)) (length h1) = nth_error (gen_validate_seq [s]) 0.
+Proof. exact c20_history_independent_lemma. Qed.
+Print Assumptions c20_history_independent.
+
+(* every step of every history is accepted iff every symbol of that query is public in that store *)
+Theorem c20_history_accept_iff : forall h k pub maps t, nth_error h k = Some (pub, maps, t) -> gen_shaped t ->
+  (nth_error (gen_validate_seq h) k = Some Accept <-> forall x, In x (gen_all_syms t) -> is_public pub maps x = true).
+Proof. exact c20_history_accept_iff_lemma. Qed.
+Print Assumptions c20_history_accept_iff.
+
+(* a validator that memoises accepted calls under a key is the history-free one whenever the key never
+   identifies an accepted call with a call that is not accepted (any table, any key type) *)
+Theorem validate_memo_faithful : forall tbl latch (K : Type) (key : vstep -> K) (keq : K -> K -> bool),
+  key_faithful tbl latch K key keq ->
+  forall h, validate_memo tbl latch K key keq [] h = validate_seq tbl latch h.
+Proof. exact validate_memo_faithful_lemma. Qed.
+Print Assumptions validate_memo_faithful.
